@@ -110,7 +110,8 @@ def run(ctx: Ctx, env):
             v = T.norm(p.value) if p.outcome == "return" else None
             q = v[1] if v and v[0] == "ref" else None
             qq = repo.canonical(q) if q else None
-            ctx.check(qq in allowed or q in allowed, "R1.operator-construct", cls,
+            allowed_c = {repo.canonical(a) for a in allowed}
+            ctx.check(qq in allowed or q in allowed or qq in allowed_c, "R1.operator-construct", cls,
                       f"OData `{O.OPERATOR_KEYWORD[cls]}` is translated with {T.show(v) if v else p.outcome}; expected {sorted(T.short(a) for a in allowed)}",
                       p.entry.get("where", ""), witness.example(O.OPERATOR_NODE[cls], cls))
     ctx.floor("operator handlers", n_ops, 13)
@@ -142,15 +143,16 @@ def run(ctx: Ctx, env):
             else:
                 ctx.fail("R1.operand-order", f"visit_{kind}", f"{kind} is built as {T.show(t)}: expected <construct>(left, right)", p.entry.get("where", ""))
     # COMPARISON_FLIP
-    if "COMPARISON_FLIP" in dm.assigns:
+    cf = repo.assign(dm.name, "COMPARISON_FLIP")
+    if cf is not None:
         try:
-            table = repo.fold(dm, dm.assigns["COMPARISON_FLIP"][0])
+            table = repo.fold(cf[0], cf[1])
         except Exception as e:
             raise AnalysisError(f"COMPARISON_FLIP is not a constant table: {e}", dm.rel)
         names = {T.short(k.qual): T.short(v.qual) for k, v in table.items()}
         for k, v in names.items():
             ctx.check(MIRROR.get(k) == v, "R1.comparison-flip", k, f"COMPARISON_FLIP maps {k} to {v}; flipping operands requires {MIRROR.get(k)}",
-                      dm.loc(dm.assigns["COMPARISON_FLIP"][0]), "4 gt version_id")
+                      cf[0].loc(cf[1]), "4 gt version_id")
             ctx.check(names.get(v) == k, "R1.comparison-flip-involution", k, f"flip(flip({k})) = {names.get(v)}", dm.rel)
 
     # ---- (2) null tests -------------------------------------------------------------------------------------------
@@ -202,7 +204,7 @@ def run(ctx: Ctx, env):
         r = repo.lookup_method(DJ, hn)
         if r is None:
             continue
-        interp = env.interp(opaque_funcs=("odata_query.typing.typecheck",))
+        interp = env.interp(opaque_funcs=(env.func_q("odata_query.typing", "typecheck"),))
         hci, fn = r
 
         def setup(it, hci=hci, fn=fn):
